@@ -196,3 +196,23 @@ def sequences(rng, taxa_labels, nchar, symbols, easy=0.7):
     for lab in taxa_labels:
         rows[lab] = "".join(rng.choice(core) if rng.random() < easy else rng.choice(symbols) for _ in range(nchar))
     return rows
+
+
+def ultrametric_spec(rng, leaf_labels, shape="binary"):
+    """Random ultrametric tree spec with dyadic node heights (all leaves at
+    height 0), so that ages and sums of lengths are exact in binary floating
+    point."""
+    items = [([lab, None, []], 0.0) for lab in leaf_labels]
+    rng.shuffle(items)
+    if len(items) == 1:
+        return items[0][0]
+    while len(items) > 1:
+        k = 2
+        if shape == "poly" and len(items) > 2 and rng.random() < 0.4:
+            k = 3
+        picked = [items.pop(rng.randrange(len(items))) for _ in range(k)]
+        h = max(p[1] for p in picked) + rng.choice([0.25, 0.5, 1.0, 1.5, 2.0])
+        for sp, ch in picked:
+            sp[1] = h - ch
+        items.append(([None, None, [p[0] for p in picked]], h))
+    return items[0][0]
